@@ -101,6 +101,12 @@ def stmt_templates():
         "select.cte": lambda Q, T, O: Q.with_(Q.from_(T).join(O2).cross().select(F(T)), "c1").from_(P.AliasedQuery("c1")).join(O).cross().select("a"),
         "select.setop": lambda Q, T, O: base(Q, O, O2).select(F(O, "o")).union(Q.from_(T).join(O2).cross().select(F(T))),
         "select.case": lambda Q, T, O: base(Q, T, O).select(P.Case().when(F(O, "o") == 1, F(T)).else_(0)),
+        # single-source statements whose WHERE names a table outside FROM (the renderer then qualifies columns): replacing may fold the two
+        "select.where_foreign": lambda Q, T, O: Q.from_(O).select(F(O, "o")).where(F(T, "w") == 1),
+        "select.source_where_foreign": lambda Q, T, O: Q.from_(T).select(F(T)).where(F(O, "w") == 1),
+        "update.where_foreign": lambda Q, T, O: Q.update(O).set(F(O, "x"), 1).where(F(T, "w") == 1),
+        "delete.where_foreign": lambda Q, T, O: Q.from_(T).delete().where(F(O, "w") == 1),
+        "select.prewhere_foreign": lambda Q, T, O: Q.from_(O).select(F(O, "o")).prewhere(F(T, "w") == 1),
         "insert.table": lambda Q, T, O: Q.into(T).insert(1),
         "insert.select": lambda Q, T, O: Q.into(O).from_(T).join(O2).cross().select(F(T)),
         "insert.columns": lambda Q, T, O: Q.into(T).columns(F(T, "c")).insert(1),
@@ -126,6 +132,7 @@ def pairs():
         "aliased->plain": lambda: (P.Table("told", alias="ao"), P.Table("tnew")),
         "plain->aliased": lambda: (P.Table("told"), P.Table("tnew", alias="an")),
         "schema->plain": lambda: (P.Table("told", schema="s1"), P.Table("tnew")),
+        "plain->other-source": lambda: (P.Table("told"), P.Table("oth")),   # the new table IS the statement's other table
     }
 
 
@@ -147,6 +154,8 @@ def run(tier: str) -> int:
     O = P.Table("oth")
     for pname, mk in pairs().items():
         for tname, f in term_templates().items():
+            if pname == "plain->other-source":
+                continue
             told, tnew = mk()
             try:
                 recv = f(told, O)
@@ -169,6 +178,8 @@ def run(tier: str) -> int:
             if d == "postgresql":
                 tmpl.update(pg)
             for sname, f in tmpl.items():
+                if pname == "plain->other-source" and "foreign" not in sname:
+                    continue  # (joining a table to itself is given an automatic alias at join time: rebuilt and replaced legitimately differ)
                 told, tnew = mk()
                 try:
                     recv = f(Q, told, O)
